@@ -2,7 +2,7 @@
 
 A rider on simulated working-tree histories: one run = one per-user rules file
 (`[name *] eol = S`, optionally preceded by `[name *.x] eol = S2`, S and S2 drawn from
-the seven documented settings), one 2a branch with up to three working trees (the
+the seven documented settings), one 2a branch with up to four working trees (the
 standalone tree and lightweight checkouts of its branch) and a seeded, model-generated
 sequence of
 
@@ -41,7 +41,7 @@ LEVEL = "exploration"
 RULE = (
     "one case = one seeded run: eol setting for '*' and (70%) a second one for '*.x' out of native, lf, crlf, native-with-crlf-in-repo, "
     "lf-with-crlf-in-repo, crlf-with-crlf-in-repo, exact; 6-24 model-generated operations (write / commit / fresh checkout / revert / update / reopen) "
-    "over 5 paths and up to 3 working trees of one 2a branch, file contents over CR, LF, NUL and letters; the tree is compared with the model after every operation; "
+    "over 5 paths and up to 4 working trees of one 2a branch, file contents over CR, LF, NUL and letters; the tree is compared with the model after every operation; "
     "non-trivial = at least one commit and one repository->tree operation (checkout, revert that rewrote a file, update) were executed and compared under a converting setting; "
     "distinct = distinct event-log digests of such runs ((setting, operation, content class) combinations counted as model states). "
     "No schedule and no fault of its own: a cross-check riding on simulated tree histories"
@@ -79,7 +79,7 @@ SETTINGS = ["native", "lf", "crlf", "native-with-crlf-in-repo", "lf-with-crlf-in
 REPO_EOL = {"native": LF, "lf": LF, "crlf": LF, "native-with-crlf-in-repo": CRLF, "lf-with-crlf-in-repo": CRLF, "crlf-with-crlf-in-repo": CRLF}
 WT_EOL = {"native": LF, "lf": LF, "crlf": CRLF, "native-with-crlf-in-repo": LF, "lf-with-crlf-in-repo": LF, "crlf-with-crlf-in-repo": CRLF}
 NAMES = ["a", "b.x", "d/c", "d/e.x", "g"]
-MAX_TREES = 3
+MAX_TREES = 4
 BAND = 32
 _EOL_RE = re.compile(rb"\r?\n")
 _BARE_LF = re.compile(rb"(?<!\r)\n")
@@ -352,16 +352,22 @@ def generate(rng, tier):
     w = World(s, s2)
     ops = []
     n = 0
-    weights = {"write": 8, "commit": 5, "checkout": 3, "revert": 3, "update": 4, "reopen": 1}
+    weights = {"write": 8, "commit": 4, "checkout": 3, "revert": 4, "update": 6, "reopen": 1}
     for k in ("checkout", "revert", "update", "reopen"):
-        weights[k] *= rng.choice([0, 1, 1, 2])
+        weights[k] *= rng.choice([0, 1, 1, 2] if k == "reopen" else [1, 1, 2])
     pool = [k for k, v in sorted(weights.items()) for _ in range(v)]
     want = rng.randint(6, 24)
     tries = 0
+    # most runs start by putting a few files into the repository
+    script = ["write"] * rng.randint(1, 4) + ["commit"] if rng.random() < 0.7 else []
     while len(ops) < want and tries < want * 20:
         tries += 1
-        kind = rng.choice(pool)
-        ti = rng.randrange(len(w.trees))
+        kind = script.pop(0) if script else rng.choice(pool)
+        ti = 0 if script or len(ops) == 0 else rng.randrange(len(w.trees))
+        if kind == "update":
+            behind = [i for i, x in enumerate(w.trees) if x["basis"] != w.tip()]
+            if behind:
+                ti = rng.choice(behind)
         t = w.trees[ti]
         if kind == "write":
             n += 1
@@ -650,6 +656,10 @@ def warm():
     if _warmed:
         return
     _warmed.append(1)
+    from . import storesim
+
+    # histories with ten or more commits read several pack indices: their order must not depend on addresses
+    storesim.install_pins()
     import shutil
     import tempfile
 
